@@ -59,6 +59,10 @@ pub open spec fn repr(f: Fp) -> Seq<u8> { le_bytes(fv(f), 24) }
 pub assume_specification[<Fp as PrimeField>::to_repr](f: &Fp) -> (r: FpRepr)
     ensures r.0@ == repr(*f);
 
+/// the byte view of an encoding (ff_derive: `impl AsRef<[u8]> for FpRepr { &self.0 }`)
+pub assume_specification[<FpRepr as core::convert::AsRef<[u8]>>::as_ref](r: &FpRepr) -> (o: &[u8])
+    ensures o@ == r.0@;
+
 pub assume_specification[<Fp as Field>::is_zero_vartime](f: &Fp) -> (r: bool)
     ensures r == (fv(*f) == 0);
 
